@@ -46,6 +46,23 @@ func verifSnapshot(nKeys int) []byte {
 	return append(b, c[:]...)
 }
 
+// verifSnapshotH: verifSnapshot plus a hash "h0" with two fields (replayed as two pipelined
+// commands when RESTORE is disabled)
+func verifSnapshotH(nKeys int) []byte {
+	b := []byte("REDIS0011")
+	b = append(b, 0xFE, 0)
+	for i := 0; i < nKeys; i++ {
+		b = append(b, 0, 2, 's', byte('0'+i), 1, 'v')
+	}
+	b = append(b, 4, 2, 'h', '0', 2, 1, 'a', 1, 'x', 1, 'b', 1, 'y')
+	b = append(b, 0xFF)
+	d := digest.New()
+	d.Write(b)
+	var c [8]byte
+	binary.LittleEndian.PutUint64(c[:], d.Sum64())
+	return append(b, c[:]...)
+}
+
 func verifRdbOutput(fake *verifFake, parallel int) *RedisOutput {
 	cfg := RedisOutputConfig{InputName: "in", CheckpointName: "cp", RunId: "rid1", TargetDb: -1}
 	cfg.EnableResumeFromBreakPoint = true
@@ -103,16 +120,32 @@ func VerifC04Cancel() {
 	verifReach("cancel.done")
 }
 
-// VerifC04TargetError: the target connection breaks at the n-th request.
+// VerifC04TargetError: the target connection breaks at the n-th request, or the target answers
+// exactly the n-th request with an error reply (and keeps working). The snapshot holds string
+// keys and a two-field hash (two pipelined commands in one flush).
 func VerifC04TargetError() {
 	nKeys := verifParam("NKEYS", 2)
 	parallel := verifRange("parallel", 1, 2)
 	fake := verifNewFake()
-	fake.crashAt = verifRange("failAt", 0, 2*nKeys)
+	reject := verifChoose("fault", 2) == 1
+	if reject {
+		fake.rejectAt = verifRange("rejectAt", 1, 2*nKeys+4)
+	} else {
+		fake.crashAt = verifRange("failAt", 0, 2*nKeys)
+	}
 	ro := verifRdbOutput(fake, parallel)
-	rd := &verifChanReader{data: verifSnapshot(nKeys), runId: "rid1", left: 1000}
+	rd := &verifChanReader{data: verifSnapshotH(nKeys), runId: "rid1", left: 1000}
 	err := ro.SendRdb(context.Background(), rd)
 	all, cp := verifRdbOutcome(fake, nKeys, 1000)
+	if h := fake.st.hash(0, "h0", false); h == nil {
+		all = false
+	} else {
+		_, okA := h.get("a")
+		_, okB := h.get("b")
+		all = all && okA && okB
+	}
+	verifObserve("all", verifB2I(all))
+	verifCover(reject && !all, "target-error.rejected-command")
 	verifAssert(verifImplies(cp, all), "C04.target-error.checkpoint-after-incomplete-replay")
 	verifAssert(verifImplies(!all, err != nil), "C04.target-error.incomplete-reported-as-success")
 	verifReach("target-error.done")
